@@ -21,7 +21,7 @@ Open Scope Z_scope.
 Theorem C17_translation_matches_model : forall (V : Type) (param ctxv : option V) (dflt : V),
   get_config_param param ctxv dflt = Ok (gcp param ctxv dflt) /\
   gcp param ctxv dflt = match param with Some v => v | None => match ctxv with Some v => v | None => dflt end end.
-Proof. intros. split; [apply gen_gcp_eq | reflexivity]. Qed.
+Proof. exact C17_translation_matches_model_holds. Qed.
 
 (* SCOPED.  Every program fragment p -- in particular every `with` block, whatever it contains: blocks at any depth,
    failing manager constructions, failing Parallel(...) calls, raise, try/except -- started by thread t with
@@ -46,14 +46,14 @@ Proof. exact solo_scoped. Qed.
 Theorem C17_thread_local :
   (forall g t u, u <> t -> gstep g t u = g u) /\
   (forall sched g t, grun sched g t = iter (count_tid t sched) (g t)).
-Proof. split; [exact gstep_other | exact grun_local]. Qed.
+Proof. exact C17_thread_local_holds. Qed.
 
 (* In every state a thread can reach (any schedule, any program, started with the default configuration) the
    configuration is determined by the `with` blocks the thread is currently inside of. *)
 Theorem C17_reachable_config : forall sched g t p,
   g t = start default_config p ->
   stack_inv default_config (t_stack (grun sched g t)) (t_cur (grun sched g t)).
-Proof. intros. exact (reachable_inv sched g t default_config p H). Qed.
+Proof. exact C17_reachable_config_holds. Qed.
 
 (* PRIORITY.  For a Parallel(args) constructed successfully by a thread inside the blocks [specs_of k] (innermost first):
    explicit argument > innermost enclosing block that sets the key > outer blocks > default, for verbose, temp_folder,
@@ -76,18 +76,7 @@ Theorem C17_priority : forall k cur a r,
   (forall kd l, a_backend a = Some (BInst kd l) -> r_kind r = kd) /\
   (a_backend a = None -> forced a cur = false ->
      r_kind r = match innermost spec_kind sp with Some kd => kd | None => BLoky end).
-Proof.
-  intros k cur a r Hinv H. cbn zeta.
-  destruct (inv_all_fields k cur Hinv) as (Hn & Hv & Ht & Hm & Hmm & Hp & Hr & Hb).
-  destruct (parallel_init_inv a cur r H) as
-    (Pv & Pkv & Pt & Pmm & Pp & Pr & Pm & _ & _ & Pn1 & Pn2 & _ & Pb1 & _ & _ & Pb3 & Pb4 & _).
-  unfold res_prefer, res_require in *. rewrite Hv in Pv. rewrite Ht in Pt. rewrite Hmm in Pmm. rewrite Hp in Pp.
-  rewrite Hr in Pr. rewrite Hm in Pm. rewrite Hn in Pn2. rewrite Pv in Pkv.
-  repeat (split; [assumption|]).
-  intros Ha Hf. rewrite <- Hb. destruct (c_backend cur) as [b|] eqn:Eb; cbn [option_map].
-  - exact (proj1 (Pb3 Ha Hf b eq_refl)).
-  - exact (proj1 (Pb4 Ha Hf eq_refl)).
-Qed.
+Proof. exact C17_priority_holds. Qed.
 
 (* The one documented exception (asserted by the repo's test_backend_hinting_and_constraints for a context that names a
    process backend together with require='sharedmem'): when the forced thread fallback fires and n_jobs is not passed
@@ -95,37 +84,17 @@ Qed.
 Theorem C17_priority_forced_fallback : forall cur a r,
   parallel_init a cur = Ok r -> forced a cur = true ->
   (njobs_arg a = None -> r_njobs r = 1) /\ (a_backend a = None -> r_kind r = BThr).
-Proof.
-  intros cur a r H Hf.
-  destruct (parallel_init_inv a cur r H) as (_ & _ & _ & _ & _ & _ & _ & _ & _ & _ & _ & Pn3 & _ & _ & Pb2 & _).
-  split; intros; auto.
-Qed.
+Proof. exact C17_priority_forced_fallback_holds. Qed.
 
 (* full statement "the innermost context's n_jobs wins over the default whenever n_jobs is not passed explicitly and no
    context names a backend that has to be replaced" is FALSE of the code (F16):
-     with parallel_config(n_jobs=2): Parallel(prefer='threads').n_jobs == 1 *)
-Definition spec_empty : cspec :=
-  {| s_backend := None; s_njobs := None; s_verbose := None; s_temp := None; s_maxnb := None; s_mmap := None;
-     s_prefer := None; s_require := None |}.
-Definition args_empty : pargs :=
-  {| a_njobs := None; a_backend := None; a_verbose := None; a_temp := None; a_maxnb := None; a_mmap := None;
-     a_prefer := None; a_require := None |}.
-Definition F16_spec : cspec :=
-  {| s_backend := None; s_njobs := Some (Some 2); s_verbose := None; s_temp := None; s_maxnb := None; s_mmap := None;
-     s_prefer := None; s_require := None |}.
-Definition F16_args : pargs :=
-  {| a_njobs := None; a_backend := None; a_verbose := None; a_temp := None; a_maxnb := None; a_mmap := None;
-     a_prefer := Some 1; a_require := None |}.
-
+     with parallel_config(n_jobs=2): Parallel(prefer='threads').n_jobs == 1
+   (witness: F16_spec / F16_args in Proofs/Config.v; replayed on the implementation by the check) *)
 Theorem C17_priority_njobs_refuted : exists k cur a r,
   stack_inv default_config k cur /\ parallel_init a cur = Ok r /\
   njobs_arg a = None /\ a_backend a = None /\ innermost spec_kind (specs_of k) = None /\
   innermost s_njobs (specs_of k) = Some (Some 2) /\ r_njobs r = 1.
-Proof.
-  eexists [FWith default_config F16_spec], _, F16_args, _.
-  split; [split; [vm_compute; reflexivity|reflexivity]|]. split; [vm_compute; reflexivity|].
-  repeat split.
-Qed.
+Proof. exact C17_priority_njobs_refuted_holds. Qed.
 
 (* SHAREDMEM.  A successfully constructed Parallel has a backend with shared memory whenever require='sharedmem' is
    passed to it, and whenever it is the resolved setting (argument or context) and no backend is passed explicitly to
@@ -134,30 +103,16 @@ Qed.
 Theorem C17_sharedmem : forall a c r, parallel_init a c = Ok r ->
   (a_require a = Some 1 -> supports_sharedmem (r_kind r) = true) /\
   (res_require a c = 1 -> a_backend a = None -> supports_sharedmem (r_kind r) = true).
-Proof.
-  intros a c r H. split.
-  - destruct (parallel_init_inv a c r H) as (_ & _ & _ & _ & _ & _ & _ & _ & _ & _ & _ & _ & _ & _ & _ & _ & _ & Hs).
-    exact Hs.
-  - exact (sharedmem_resolved a c r H).
-Qed.
+Proof. exact C17_sharedmem_holds. Qed.
 
 (* full statement "require='sharedmem' (argument or context) always yields a backend with shared memory" is FALSE of the
    code (F17): Parallel.__init__ tests the ARGUMENT `require`, not the resolved setting:
-     with parallel_config(require='sharedmem'): Parallel(backend='loky', n_jobs=2)  -> LokyBackend *)
-Definition F17_spec : cspec :=
-  {| s_backend := None; s_njobs := None; s_verbose := None; s_temp := None; s_maxnb := None; s_mmap := None;
-     s_prefer := None; s_require := Some 1 |}.
-Definition F17_args : pargs :=
-  {| a_njobs := Some (Some 2); a_backend := Some (BInst BLoky None); a_verbose := None; a_temp := None; a_maxnb := None;
-     a_mmap := None; a_prefer := None; a_require := None |}.
-
+     with parallel_config(require='sharedmem'): Parallel(backend='loky', n_jobs=2)  -> LokyBackend
+   (witness: F17_spec / F17_args in Proofs/Config.v; replayed on the implementation by the check) *)
 Theorem C17_sharedmem_context_refuted : exists k cur a r,
   stack_inv default_config k cur /\ parallel_init a cur = Ok r /\
   r_kw_require r = 1 /\ supports_sharedmem (r_kind r) = false.
-Proof.
-  eexists [FWith default_config F17_spec], _, F17_args, _.
-  split; [split; [vm_compute; reflexivity|reflexivity]|]. split; [vm_compute; reflexivity|]. split; reflexivity.
-Qed.
+Proof. exact C17_sharedmem_context_refuted_holds. Qed.
 
 (* PREFER IS ONLY A HINT.  Whatever prefer is (argument or context): a backend passed to Parallel is the one used; a
    backend named by the context is the one used (class and nesting level) unless the resolved require is 'sharedmem';
@@ -168,22 +123,13 @@ Theorem C17_prefer_hint : forall a c r, parallel_init a c = Ok r ->
      r_kind r = ck b /\ r_level r = clevel b) /\
   (a_backend a = None -> c_backend c = None ->
      r_kind r = if (res_require a c =? 1) || (res_prefer a c =? 1) then BThr else BLoky).
-Proof.
-  intros a c r H. split; [|split].
-  - destruct (parallel_init_inv a c r H) as (_ & _ & _ & _ & _ & _ & _ & _ & _ & _ & _ & _ & Hb & _). exact Hb.
-  - intros b Hb Hc Hr. exact (prefer_hint_ctx a c r b H Hb Hc Hr).
-  - exact (backend_from_hints a c r H).
-Qed.
+Proof. exact C17_prefer_hint_holds. Qed.
 
 (* invalid or inconsistent hints never produce an instance *)
 Theorem C17_invalid_rejected : forall a c r, parallel_init a c = Ok r ->
   valid_prefer (res_prefer a c) = true /\ valid_require (res_require a c) = true /\
   a_backend a <> Some BInvalid.
-Proof.
-  intros a c r H.
-  destruct (parallel_init_inv a c r H) as (_ & _ & _ & _ & _ & _ & _ & Vp & Vr & _ & _ & _ & _ & Hb & _).
-  auto.
-Qed.
+Proof. exact C17_invalid_rejected_holds. Qed.
 
 (* non-vacuity: a depth-3 nesting with an exception, observed inside and after; the hypotheses of C17_priority hold
    in a state with three enclosing blocks and the resolution picks arguments from three different levels *)
